@@ -16,8 +16,9 @@ Import ListNotations.
 Open Scope Z_scope.
 
 (* Python exceptions the path can raise: KeyError (missing cell / surface id) and
-   RecursionError (cyclic cell references or a universe filling itself) *)
-Inductive err := EKey | EFuel.
+   RecursionError (cyclic cell references or a universe filling itself); TypeError only in
+   CellInlining.extract_subcells on a geometry that is a bare CellRef *)
+Inductive err := EKey | EFuel | EType.
 Inductive res (A : Type) := Ok (a : A) | Err (e : err).
 Arguments Ok {A}. Arguments Err {A}.
 
@@ -324,6 +325,177 @@ Definition fill_each (fuel cf : nat) (du : list (Z * list Z)) (ifd ifg : bool) (
 (* dict_universe = by_universe(mcnp_dict); fill_keys = [...]; for key in fill_keys: pot_fill *)
 Definition fill_phase (fuel cf : nat) (ifd ifg : bool) (s : state) : res (list (list Z) * state) :=
   fill_each fuel cf (by_universe (s_cells s)) ifd ifg (fill_keys (s_cells s)) s.
+
+(* ---- CellInlining.inline_cells ---------------------------------------------------------- *)
+(* trees at this stage have no ('^', c) node left (pot_complement ran before FILL); the model
+   leaves one untouched *)
+
+(* extract_subcells(geometry): CellRefs among the arguments, depth first; unpacking a bare
+   CellRef raises TypeError *)
+Fixpoint subcells_args (e : tree) : list Z :=
+  match e with
+  | TNode _ args => flat_map (fun a => match a with
+                                       | TRef c => [c]
+                                       | TNode _ _ => subcells_args a
+                                       | _ => []
+                                       end) args
+  | _ => []
+  end.
+
+Definition extract_subcells (e : tree) : res (list Z) :=
+  match e with
+  | TSurf _ => Ok []
+  | TRef _ => Err EType
+  | TCompl _ => Ok []
+  | TNode _ _ => Ok (subcells_args e)
+  end.
+
+(* geometry_size *)
+Fixpoint geometry_size (e : tree) : Z :=
+  match e with
+  | TNode _ args => fold_right (fun a acc => geometry_size a + acc) 0 args
+  | TCompl _ => 1
+  | _ => 1
+  end.
+
+Definition zmem (k : Z) (l : list Z) : bool := existsb (Z.eqb k) l.
+
+(* "for subcell in subcells": occurrences[subcell].append(key); enqueue once *)
+Fixpoint occ_push (key : Z) (subs : list Z) (stack enq : list Z) (occ : list (Z * list Z))
+  : list Z * list Z * list (Z * list Z) :=
+  match subs with
+  | [] => (stack, enq, occ)
+  | c :: r =>
+      let occ' := dappend c key occ in
+      if zmem c enq then occ_push key r stack enq occ'
+      else occ_push key r (c :: stack) (c :: enq) occ'
+  end.
+
+(* find_occurrences: [stack] has its top first (key_stack.pop() takes the last element) *)
+Fixpoint occ_loop (fuel : nat) (cells : list (Z * cell)) (stack enq : list Z)
+         (occ : list (Z * list Z)) : res (list (Z * list Z)) :=
+  match stack with
+  | [] => Ok occ
+  | key :: rest =>
+      match fuel with
+      | O => Err EFuel
+      | S f =>
+          match dget key cells with
+          | None => Err EKey
+          | Some cl =>
+              match extract_subcells (c_geom cl) with
+              | Err x => Err x
+              | Ok subs =>
+                  let '(st, en, oc) := occ_push key subs rest enq occ in
+                  occ_loop f cells st en oc
+              end
+          end
+      end
+  end.
+
+(* a while loop in Python: every key is enqueued at most once and must exist when popped, so
+   the number of cells bounds the number of iterations *)
+Definition find_occurrences (cells : list (Z * cell)) : res (list (Z * list Z)) :=
+  let keys0 := map fst (filter (fun kc => c_univ (snd kc) =? 0) cells) in
+  occ_loop (S (List.length cells)) cells (rev keys0) keys0 [].
+
+(* compute_inlining_scores + the threshold test, with max_inline_score = num / den (den > 0):
+   score < max  <->  0 < num  for a cell occurring at most once,
+                     size * den < num * n  otherwise *)
+Fixpoint to_inline_set (cells : list (Z * cell)) (num den : Z) (occ : list (Z * list Z))
+  : res (list Z) :=
+  match occ with
+  | [] => Ok []
+  | (key, occurs) :: r =>
+      let n := Z.of_nat (List.length occurs) in
+      match (if n <=? 1 then Ok (0 <? num)
+             else match dget key cells with
+                  | None => Err EKey
+                  | Some cl => Ok (geometry_size (c_geom cl) * den <? num * n)
+                  end) with
+      | Err x => Err x
+      | Ok b =>
+          match to_inline_set cells num den r with
+          | Err x => Err x
+          | Ok l => Ok (if b then key :: l else l)
+          end
+      end
+  end.
+
+Section MapM.
+Context {A B : Type}.
+Variable f : A -> res B.
+Fixpoint mapM_res (l : list A) : res (list B) :=
+  match l with
+  | [] => Ok []
+  | a :: r => match f a with
+              | Err x => Err x
+              | Ok b => match mapM_res r with Err x => Err x | Ok bs => Ok (b :: bs) end
+              end
+  end.
+End MapM.
+
+(* inline_cells_worker(geometry, dic, to_inline) *)
+Fixpoint inline_worker (fuel : nat) (cells : list (Z * cell)) (ti : list Z) (e : tree) : res tree :=
+  match fuel with
+  | O => Err EFuel
+  | S f =>
+      match e with
+      | TNode op args =>
+          match mapM_res (fun a =>
+                   match a with
+                   | TRef c =>
+                       if zmem c ti then
+                         match dget c cells with
+                         | None => Err EKey
+                         | Some cl => inline_worker f cells ti (c_geom cl)
+                         end
+                       else Ok a
+                   | TNode _ _ => inline_worker f cells ti a
+                   | _ => Ok a
+                   end) args with
+          | Err x => Err x
+          | Ok args' => Ok (TNode op args')
+          end
+      | _ => Ok e
+      end
+  end.
+
+(* "for key, cell in dic.items(): cell.geometry = inline_cells_worker(cell.geometry, dic, ...)":
+   in place, so later cells see the geometries already rewritten *)
+Fixpoint inline_loop (fuel : nat) (keys : list Z) (ti : list Z) (cells : list (Z * cell))
+  : res (list (Z * cell)) :=
+  match keys with
+  | [] => Ok cells
+  | k :: r =>
+      match dget k cells with
+      | None => Err EKey
+      | Some cl =>
+          match inline_worker fuel cells ti (c_geom cl) with
+          | Err x => Err x
+          | Ok g' => inline_loop fuel r ti (dset k (with_geom cl g') cells)
+          end
+      end
+  end.
+
+(* inline_cells(dic, max_inline_score) *)
+Definition inline_cells (fuel : nat) (num den : Z) (cells : list (Z * cell)) : res (list (Z * cell)) :=
+  match find_occurrences cells with
+  | Err x => Err x
+  | Ok occ =>
+      match occ with
+      | [] => Ok cells
+      | _ =>
+          match to_inline_set cells num den occ with
+          | Err x => Err x
+          | Ok ti =>
+              match ti with
+              | [] => Ok cells
+              | _ => inline_loop fuel (map fst cells) ti cells
+              end
+          end
+      end
+  end.
 
 End Model.
 
